@@ -86,7 +86,7 @@ pub fn random_cfg(r: &mut Rng) -> Cfg {
         keeper_rate: dec(r.pick(&keeper)),
         price: dec(r.pick(&prices)),
         extra_denom: r.chance(1, 3),
-        user_funds: 4 * E18,
+        user_funds: E18,
     }
 }
 
